@@ -54,7 +54,8 @@ def _min_dtype_for_encoding(data_encoding: encodings.DataEncoding):
     elif isinstance(data_encoding, encodings.BinaryDataEncoding):
         datatype = "bytes"
     elif isinstance(data_encoding, encodings.StringDataEncoding):
-        datatype = "str"
+        # The raw value of a string parameter is its bytes buffer
+        datatype = "bytes"
     else:
         raise ValueError(f"Unrecognized data encoding type {data_encoding}.")
 
